@@ -43,6 +43,23 @@ theorem C15_partial_no_lost_wakeup_window {s : St} {a : Sp} (h : Rel s a) (op e 
   let ⟨o, h1, _⟩ := pollWith_completes h op e hop hal href hale hal2 hen
   ⟨o, h1⟩
 
+/-- Tie of that window to the source: in every event sequence the translator's interpreter finds in `MRBFuture::poll` of the
+    current tree, `Pending` is returned only after the waker has been registered *and* an attempt made after the registration
+    has failed — there is no way out of `poll` with `Pending` in which a change that happened before the registration could
+    go unnoticed — and no sequence ends in something the interpreter could not follow. -/
+theorem C15_source_pending_only_after_registered_attempt :
+    ∀ t ∈ Gen.pollTraces, (.unknown ∉ t) ∧
+      (t.getLast? = some .pending → ∃ pre post, t = pre ++ [.register] ++ post ∧ .attemptFail ∈ post ∧ .register ∉ post) := by
+  intro t ht
+  have hall : Gen.pollTraces = [[.attemptFail, .register, .attemptFail, .pending], [.attemptFail, .register, .attemptOk, .ready],
+      [.attemptOk, .ready]] := rfl
+  rw [hall] at ht
+  simp only [List.mem_cons, List.not_mem_nil, or_false] at ht
+  rcases ht with rfl | rfl | rfl
+  · exact ⟨by decide, fun _ => ⟨[.attemptFail], [.attemptFail, .pending], rfl, by decide, by decide⟩⟩
+  · exact ⟨by decide, fun h => absurd h (by decide)⟩
+  · exact ⟨by decide, fun h => absurd h (by decide)⟩
+
 /-- Non-vacuity: empty buffer, consumer polls `pop`, the producer pushes 7 during the registration: ready with 7. -/
 example : (pollWith (St.init [0, 0, 0] false true false) .pop (.push 7)).2 = .ready (.item 7) := by decide
 
